@@ -12,7 +12,7 @@ open ILV ILV.FS ILV.Persist ILV.Spec.C13
 def C13_statement : Prop :=
   ∀ (b : Nat) (h : List HItem), specJudge [] none (h ++ [.restart]) (run b h) = true
 
-def r : Name := [114]
+def r : Name := [107, 58, 114]    -- shard `k:r`
 
 /-! ### refutations: five independent crash windows -/
 
@@ -118,10 +118,10 @@ example :
 /-- crash-free and boundary-crash histories do satisfy the Spec (the statement is not vacuous or everywhere false):
     two relations, auto-flush, delete, compaction, a crash inside an insert before its fsync and one after. -/
 example :
-    let h : List HItem := [.op (.ins r [0]), .op (.ins [115] [1]), .op (.ins r [2]), .op (.del r [0]), .op (.compactAll []),
+    let h : List HItem := [.op (.ins r [0]), .op (.ins [107, 58, 115] [1]), .op (.ins r [2]), .op (.del r [0]), .op (.compactAll []),
       .opCrash (.ins r [3]) 1 none, .opCrash (.ins r [4]) 3 none]
     specJudge [] none (h ++ [.restart]) (run 2 h) = true ∧
-      (run 2 h).getLast? = some (.opened [(r, [2, 4]), ([115], [1])] [.persistNewMkdir, .walNewMkdir]) := by
+      (run 2 h).getLast? = some (.opened [(r, [2, 4]), ([107, 58, 115], [1])] [.persistNewMkdir, .walNewMkdir]) := by
   decide
 
 end ILV.Props.C13
